@@ -168,6 +168,12 @@ HISTORY = {
     "C10-11": ("missed (round 7)", "C09 memory-scope `filter-by-group-only` / C10 `snapshot-filter-agreement`: every entry-selecting closure of the memory backend's snapshot / restore selects by the group id alone"),
     "C11-11": ("caught (round 7)", ""),
     "C15-11": ("caught, but by a brittle count of `try_into` calls that also fired on the correct refactor R2-6 (round 7)", "C15 extension-wiring `checked-conversions/<field>`: per optional field, an exact-length conversion and no prefix-taking call on its data path"),
+    "C08-12": ("caught (round 8)", ""),
+    "C12-12": ("caught (round 8)", ""),
+    "C16-12": ("caught (round 8)", ""),
+    "C17-12": ("caught (round 8)", ""),
+    "C19-12": ("caught (round 8)", ""),
+    "C20-12": ("caught (round 8)", ""),
 }
 rows = ["| id | change (needs) | first | now caught by | strengthened |", "|----|----------------|-------|---------------|--------------|"]
 sd = os.path.join(VERIF, "seeded")
